@@ -91,6 +91,30 @@ def _c15_worker(case):
                 leaves = sorted(x["space"] for i, x in enumerate(ns) if x["exp"] and not succ_of[i])
                 if leaves != sorted(mintraps):
                     msgs.append(("true-but-minimal-traps-missing", f"{op} returned True but the expanded leaves {leaves} are not the minimal trap spaces {sorted(mintraps)}")); break
+            if op[0] == "target" and r == "true" and all(is_plain(o) for o, *_ in snaps[: idx + 1]):
+                # a completed target-directed expansion, whatever the limit was and whatever was expanded before: every node
+                # reached from the root through relevant nodes (meets the target, not strictly inside it) is expanded
+                tgt = op[1]
+                def relevant(sp):
+                    meets = all(a == "*" or b == "*" or a == b for a, b in zip(sp, tgt))
+                    inside = all(b == "*" or a == b for a, b in zip(sp, tgt))
+                    return meets and not (inside and sp != tgt)
+                succ_of = {i: [] for i in range(len(ns))}
+                for a_, b_, _ in es:
+                    succ_of[a_].append(b_)
+                seen_t, todo = {0}, [0]
+                bad = None
+                while todo:
+                    i = todo.pop()
+                    if not relevant(ns[i]["space"]):
+                        continue
+                    if not ns[i]["exp"]:
+                        bad = i; break
+                    for j in succ_of[i]:
+                        if j not in seen_t:
+                            seen_t.add(j); todo.append(j)
+                if bad is not None:
+                    msgs.append(("target-true-but-relevant-stub", f"{op} returned True but the relevant node {bad} ({ns[bad]['space']}) is still unexpanded")); break
             if op[0] in ("bfs", "dfs", "min", "target") and r == "false":
                 size_lim = op[3] if op[0] in ("bfs", "dfs") else op[2]
                 other_lim = op[2] if op[0] in ("bfs", "dfs") else None
@@ -159,6 +183,7 @@ def run_C15(tier, seed):
     fixed = pmap(P._fix_worker, [dict(c, nomodel=True) for c in cases])
     for c, f in zip(cases, fixed):
         c["history"] = [list(o) for o in f["history"]]
+        if f.get("fix_timeout"): c["fix_timeout"] = True
     ws = pmap(_c15_worker, cases)
     viol = harness_errors(ws, "C15")
     stats = {}
@@ -338,7 +363,7 @@ def run_C13(tier, seed):
             h += [("cands", i, rng.random() < 0.5, False), ("seeds", i, False), ("sets", i)]
         raw.append({"rules": rules, "config": cfg, "history": h, "nomodel": True})
     fixed = pmap(P._fix_worker, raw)
-    cases += [{"rules": f["rules"], "config": f["config"], "history": [list(o) for o in f["history"]]} for f in fixed]
+    cases += [dict({"rules": f["rules"], "config": f["config"], "history": [list(o) for o in f["history"]]}, **({"fix_timeout": True} if f.get("fix_timeout") else {})) for f in fixed]
     ws = pmap(_c13_worker, cases)
     viol = harness_errors(ws, "C13")
     worst = 0.0; total = 0
